@@ -266,7 +266,10 @@ fn cfg_strategy_inner(p: Profile, thorough: bool) -> BoxedStrategy<Cfg> {
                 c.slots = 3;
                 c.refs = b1;
                 c.clients = c.clients.min(2);
-                prop_oneof![3 => Just(0u8), 1 => Just(1u8)].prop_map(move |v| Cfg { vis: v, ..c.clone() }).boxed()
+                // both clients there from the start in half of the cases: with a visibility list their update ticks diverge
+                // (an update message that only one of them gets), while mutations of one tick go to both
+                c.connect_all = b2;
+                prop_oneof![2 => Just(0u8), 1 => Just(1u8), 1 => Just(2u8)].prop_map(move |v| Cfg { vis: v, ..c.clone() }).boxed()
             }
             Profile::Sessions => {
                 c.faults = true;
@@ -355,7 +358,7 @@ pub fn step_strategy(cfg: &Cfg, p: Profile) -> BoxedStrategy<Step> {
         (if structural { 8 } else { 4 }, (0..slots, k_strategy()).prop_map(|(slot, k)| Step::Remove { slot, k }).boxed()),
         (if split { 16 } else if lossy { 12 } else { 8 }, (0..slots, k_strategy()).prop_map(|(slot, k)| Step::Mutate { slot, k }).boxed()),
         (if split { 4 } else { 0 }, (0..slots, prop_oneof![4 => 0u16..48, 1 => 100u16..300]).prop_map(|(slot, len)| Step::Resize { slot, len }).boxed()),
-        (if split { 8 } else if lossy { 1 } else { 0 }, k_strategy().prop_map(|k| Step::MutateAll { k }).boxed()),
+        (if split { 8 } else if tight { 3 } else if lossy { 1 } else { 0 }, k_strategy().prop_map(|k| Step::MutateAll { k }).boxed()),
         (if split { 3 } else if lossy { 2 } else { 0 }, (3u8..10).prop_map(|n| Step::IdleFrames { n }).boxed()),
         (if lossy { 1 } else { 0 }, (1u8..13).prop_map(|secs| Step::LongFrame { secs }).boxed()),
         (
@@ -370,6 +373,7 @@ pub fn step_strategy(cfg: &Cfg, p: Profile) -> BoxedStrategy<Step> {
         (if split { 1 } else if lossy { 5 } else { 2 }, (0..clients, any::<u16>()).prop_map(|(client, idx)| Step::DropMut { client, idx }).boxed()),
         (if split { 14 } else if lossy { 2 } else if cfg.prespawn && cfg.refs { 3 } else { 0 }, (0..clients, any::<u8>(), any::<bool>()).prop_map(|(client, mask, ack)| Step::PartialMut { client, mask, ack }).boxed()),
         (if lossy { 4 } else { 6 }, (0..clients, 1..3usize).prop_map(|(client, n)| Step::DeliverAck { client, n }).boxed()),
+        (if tight || lossy || matches!(p, Profile::Vis) { 3 } else { 1 }, (0..clients, any::<bool>(), any::<bool>()).prop_map(|(client, rev, ack)| Step::MutFirst { client, rev, ack }).boxed()),
         (2, (0..clients).prop_map(|client| Step::Connect { client }).boxed()),
     ];
     let wrap = matches!(p, Profile::Wrap);
@@ -390,6 +394,7 @@ pub fn step_strategy(cfg: &Cfg, p: Profile) -> BoxedStrategy<Step> {
         w(cfg.vis != 0, if matches!(p, Profile::Vis) { 4 } else { 1 }),
         (0..clients, 0..slots, proptest::collection::vec(any::<bool>(), 2..5)).prop_map(|(client, slot, pattern)| Step::VisBurst { client, slot, pattern }).boxed(),
     ));
+    v.push((w(cfg.vis != 0 && clients >= 2, if tight || matches!(p, Profile::Vis) { 4 } else { 2 }), (0..slots, k_strategy(), any::<bool>()).prop_map(|(slot, k, rev)| Step::DivergeEpisode { slot, k, rev }).boxed()));
     v.push((
         w(cfg.prespawn, 4),
         (0..clients, 0..slots, proptest::bool::weighted(0.2), any::<bool>(), proptest::bool::weighted(0.35), if cfg.refs { proptest::option::weighted(0.5, 0..slots).boxed() } else { Just(None).boxed() })
